@@ -25,7 +25,7 @@ from fractions import Fraction
 
 import numpy as np
 
-from common import REPO, VERIF, coq_bool, coq_list, coq_nat, coq_z, qc, qc_list, qc_mat, sh
+from common import REPO, VERIF, source_pins, coq_bool, coq_list, coq_nat, coq_z, qc, qc_list, qc_mat, sh
 
 TRUSTED_BASE = [
     "Coq 8.16.1 kernel + coqc (vm_compute only for the two decidable sweeps over the translated meets_criteria program and for the non-vacuity examples; no native_compute)",
@@ -52,6 +52,39 @@ RULE = ("params: criteria (4 presets, dyadic random, unset attributes, zero/inf)
         "runs of > 10 iterations for the reload; and a file-based (uses_external_io) fake program with two optimisations of "
         "an equally named species from different starts in one directory, keep_input_files on/off); distinct by the full case spec. calc: sequences of Calculation(OptKeywords) "
         "through CalculationExecutorO in one directory (same name with changed / added constraints, exact repeats)")
+
+# Functions the hand-written parts of coq/C10/Model.v (and the structure-mirroring parts of this harness) were written
+# from and that tr/translate_c10.py neither regenerates nor pins by text.  (Translated: _num_attrs, are_satisfied,
+# meets_criteria, __post_init__, Optimiser.__init__ guard, iteration, _exceeded_maximum_iteration, NDOptimiser.converged,
+# the loop of run, is_satisfied.  Text-pinned by the translator: __mul__, _to_base_units, conv_params, __len__, the
+# _coords getter/setter, the rest of run, delta, n_constraints, constrained_primitives, n_satisfied_constraints,
+# n_constrained.)
+_B, _V = "autode/opt/optimisers/base.py", "autode/values.py"
+_D, _C = "autode/opt/coordinates/dic.py", "autode/opt/coordinates/cartesian.py"
+PINS = [
+    # ext_mul / the sanity comparison / |dE| in conv_params: Value arithmetic and strict comparison
+    (_V, "Value.__mul__"), (_V, "Value._like_self_from_float"), (_V, "Value._other_same_units"), (_V, "Value.__lt__"),
+    (_V, "Value.__gt__"), (_V, "Value.__abs__"), (_V, "Value.__sub__"),
+    # the loop state: history bookkeeping and the gradient/energy update of history.final (evalg)
+    (_B, "Optimiser.__init__"), (_B, "NDOptimiser.__init__"), (_B, "Optimiser._update_gradient_and_energy"),
+    (_B, "OptimiserHistory.__init__"), (_B, "OptimiserHistory.add"), (_B, "OptimiserHistory.final"),
+    (_B, "OptimiserHistory.penultimate"), (_B, "OptimiserHistory.__getitem__"),
+    # "a step assigns self._coords at most once" (step : hist -> option entry; None = null step)
+    ("autode/opt/optimisers/rfo.py", "RFOptimiser._step"), ("autode/opt/optimisers/rfo.py", "RFOptimiser._take_step_within_trust_radius"),
+    ("autode/opt/optimisers/crfo.py", "CRFOptimiser._step"), ("autode/opt/optimisers/crfo.py", "CRFOptimiser._take_step_within_max_move"),
+    ("autode/opt/optimisers/prfo.py", "PRFOptimiser._step"), ("autode/opt/optimisers/steepest_descent.py", "SteepestDescent._step"),
+    # cart_proj_g / masking / constraint counters per coordinate class
+    (_D, "DICWithConstraints.cart_proj_g"), (_D, "DICWithConstraints.inactive_indexes"), (_D, "DICWithConstraints.g"),
+    (_D, "DIC.cart_proj_g"), (_C, "CartesianCoordinates.cart_proj_g"), (_C, "CartesianCoordinates.n_constraints"),
+    (_C, "CartesianCoordinates.n_satisfied_constraints"),
+    # mirrored by the oracles of this harness: preset table, reload, executor defaults, stale-energy classification
+    (_B, "ConvergenceParams.from_preset"), (_B, "NDOptimiser.from_file"), (_B, "OptimiserHistory.load"),
+    ("autode/calculations/executors.py", "CalculationExecutorO.__init__"),
+    ("autode/calculations/executors.py", "CalculationExecutorO.run"),
+    ("autode/calculations/executors.py", "CalculationExecutorO._max_opt_cycles"),
+    ("autode/calculations/executors.py", "CalculationExecutorO._set_properties_from_optimiser"),
+    ("autode/species/species.py", "Species._reset_properties_for"), (_V, "Energies.append"), (_V, "Energy.__eq__"),
+]
 
 SLICE = ["lib/Sums.v", "lib/QcInst.v", "C10/Base.v", "C10/Model.v", "C10/Lemmas.v", "C10/Props.v", "C10/Corr.v",
          "gen/C10_Gen.v"]
@@ -1297,6 +1330,10 @@ def stream_calc(ctx, env, full, fail):
 # ============================================================================ driver
 def run(ctx):
     full = not ctx.quick
+    pins_changed = source_pins(ctx.pid, PINS)
+    ctx.cov["source_pins"] = {"pinned": len(PINS), "changed": pins_changed}
+    if pins_changed:
+        ctx.log("source pins changed:", ", ".join(pins_changed))
     # 1. regenerate the model from the repository
     rc, out = sh(["python3", f"{VERIF}/tr/translate_c10.py"], timeout=120)
     translated = rc == 0
@@ -1379,6 +1416,9 @@ def run(ctx):
                            "coq_terms": [t[:3000] for _, t in corr_bad[:2]], "coq_error": corr_err}, found_input=False)
         else:
             ctx.log("correspondence disagreements explained by the implementation-level findings above")
+    if pins_changed and translated and proofs_ok and nfail[0] == 0 and not (corr_bad or corr_err):
+        ctx.violation("hand model no longer pinned to the source: " + ", ".join(pins_changed),
+                      {"kind": "source-pin", "changed": pins_changed}, found_input=False)
     if not corr_ran and proofs_ok:
         ctx.violation("correspondence did not run", {"kind": "correspondence"}, found_input=False)
 
